@@ -100,14 +100,17 @@ def _curve_setup(ctx, p, mult, rational, norm=True):
     return U, inner, n, Pw, crv, C
 
 
-def _surf_setup(ctx, pu, pv, mu, mv, rational):
-    U, iu, su = shapes.make_kv(ctx, pu, mu, prefix='a')
-    V, iv, sv = shapes.make_kv(ctx, pv, mv, prefix='b')
+def _surf_setup(ctx, pu, pv, mu, mv, rational, norm=True):
+    U, iu, su = shapes.make_kv(ctx, pu, mu, prefix='a', normalized=norm)
+    V, iv, sv = shapes.make_kv(ctx, pv, mv, prefix='b', normalized=norm)
     shapes.separated_knots(ctx, U, MULT_TOL)
     shapes.separated_knots(ctx, V, MULT_TOL)
+    if not norm:
+        # pieces come back normalised: domains no longer than 1 keep the tol_separated precondition valid in every piece (A1)
+        ctx.assume(ctx.le(U[-1] - U[0], 1), ctx.le(V[-1] - V[0], 1))
     P = shapes.net(ctx, 'P', su * sv, 3)
     W = shapes.weights(ctx, 'w', su * sv) if rational else None
-    srf = shapes.build_surface(ctx, pu, pv, U, V, P, su, sv, W)
+    srf = shapes.build_surface(ctx, pu, pv, U, V, P, su, sv, W, normalize_kv=norm)
     Pw = shapes.homog(P, W)
 
     def S(a, b):
@@ -209,16 +212,20 @@ def _split_surf_shapes(tier):
                 dict(pu=2, pv=2, mu=[1, 1], mv=[1, 2], d='v', rational=False),
                 dict(pu=1, pv=2, mu=[], mv=[], d='v', rational=True),
                 dict(pu=1, pv=1, mu=[], mv=[1], d='v', rational=True)]
+    # knot vectors kept as given (normalize_kv=False): different symbolic domains per direction, so the split parameter of one
+    # direction may coincide with an end of the OTHER direction's domain
+    out += [dict(pu=1, pv=2, mu=[], mv=[1], d='v', rational=False, norm=False),
+            dict(pu=2, pv=1, mu=[1], mv=[], d='u', rational=False, norm=False)]
     return out
 
 
 @scenario('C07', fns=['operations.split_surface_u', 'operations.split_surface_v', 'operations.insert_knot',
                       'BSpline.Surface.ctrlpts2d', 'BSpline.Surface.evaluate_single', 'knotvector.normalize'],
           quick=lambda: _split_surf_shapes('quick'), thorough=lambda: _split_surf_shapes('thorough'))
-def split_surface(ctx, pu, pv, mu, mv, d, rational):
+def split_surface(ctx, pu, pv, mu, mv, d, rational, norm=True):
     """split in direction d at a symbolic x: two patches, each == original under the affine map in direction d and
     the identity in the other direction; input unchanged; x at an end of the d-domain raises"""
-    U, V, iu, iv, su, sv, Pw, srf, S = _surf_setup(ctx, pu, pv, mu, mv, rational)
+    U, V, iu, iv, su, sv, Pw, srf, S = _surf_setup(ctx, pu, pv, mu, mv, rational, norm)
     K, inner = (U, iu) if d == 'u' else (V, iv)
     lo, hi = K[0], K[-1]
     x = shapes.param_in(ctx, 'x', lo, hi, open_lo=True, open_hi=True)
